@@ -229,6 +229,14 @@ func runC19(c *Ctx) {
 			c.obI("R19.1", r, "always-runs-"+pr.name, !pathExists(val, nil, r, nil, isOneOf(vc)), "a successful validation has run the '"+pr.name+"' comparison (no shortcut skips a category)", "validate can succeed without comparing this category")
 		}
 	}
+	// the declared security definitions are those of the description AS SERVED — Document.Spec(), the one the analyzer
+	// (and with it the required set) works on — not the document as first loaded (OrigSpec) or its raw bytes
+	for _, ci := range allCalls(val) {
+		switch n := calleeName(ci.Common()); n {
+		case "(*github.com/go-openapi/loads.Document).OrigSpec", "(*github.com/go-openapi/loads.Document).Raw", "(*github.com/go-openapi/loads.Document).Pristine":
+			c.obD("R19.1", ci, "definitions-of-the-served-description", false, "validate reads the description through Document.Spec() only: both sides of every comparison describe the same document", baseName(n)+"() is consulted: what is declared is read from another version of the document than what is required")
+		}
+	}
 	checkErrorsReturned(c, "R19.1", val, 0, nil)
 	vd := p.Fn("(*rt/middleware/untyped.API).Validate")
 	for _, r := range returnsOf(vd) {
